@@ -4,7 +4,7 @@ from harness.common import bud
 from harness.props import c01
 
 PROP = "C04"
-MODULES = ["CassisModel.Properties.C04", "CassisModel.Properties.C01", "CassisModel.Properties.C15"]
+MODULES = ["CassisModel.Properties.C04", "CassisModel.Properties.C01", "CassisModel.Properties.C15", "CassisModel.Properties.C04Faithful"]
 THEOREMS = [
     "Cassis.Traverse.findAllFs_closed",
     "Cassis.Traverse.findAllFs_complete",
@@ -13,6 +13,7 @@ THEOREMS = [
     "Cassis.Traverse.findAllFs_nodup",
     "Cassis.Xmi.saveXmi_shape",
     "Cassis.Xmi.saveXmi_ids_nodup",
+    "Cassis.Xmi.saveXmi_faithful_flat",
 ]
 ASSUMPTIONS = [
     "proved: the set of structures both serialisers write is exactly the set reachable from the indexed structures, each once under its own id, closed under every kind of reference (arrays and lists, inlined or not); the XMI document lists them in ascending distinct ids",
